@@ -261,6 +261,13 @@ def compare_with_model(ln, zs):
 # ------------------------------------------------------------------------------------------------------------------
 def check(report, tier):
     ok, broken = coqbuild.check_property("C15", report)
+    # Admitted / axioms are scanned over the whole development; only the files the C15 theorems depend on decide C15
+    # (`Print Assumptions` of every C15 theorem is recorded in coverage.print_assumptions), the others are noted.
+    mine = set(report.coverage.get("coq_files", []))
+    foreign = [b for b in broken if b.startswith("forbidden:") and b[len("forbidden:"):].split(":")[0] not in mine]
+    if foreign:
+        report.notes.append("forbidden constructs in files C15 does not depend on: " + "; ".join(foreign)[:400])
+        broken = [b for b in broken if b not in foreign]
     runs, run_s, maxn = build_and_run(tier)
     found = []          # (group, payload, text)  direct failures: a concrete case
     model_breaks = []   # (payload, text)
